@@ -16,7 +16,7 @@ use dashmap::DashMap;
 #[cfg(feature="smallvec")]
 use smallvec::{Array, SmallVec};
 #[cfg(feature="bitvec")]
-use bitvec::prelude::*;
+use bitvec::{field::BitField, prelude::*};
 
 use crate::{plugin::Plugin, session::Session};
 
@@ -552,18 +552,34 @@ impl<T: Array> Encode for SmallVec<T> where T::Item: Encode {
 }
 
 #[cfg(feature="bitvec")]
-impl<T: Encode + BitStore, O: BitOrder> Encode for BitVec<T, O> {
+impl<T: BitStore, O: BitOrder> Encode for BitVec<T, O>
+where
+    BitSlice<T, O>: BitField,
+{
     fn encode<E: Encoder + ?Sized>(
         &self,
         encoder: &mut E,
-        plugin: &Plugin,
-        session: &mut Session,
+        _plugin: &Plugin,
+        _session: &mut Session,
     ) -> io::Result<()> {
+        // The decoder reads the length in bits followed by `ceil(len / 8)`
+        // raw bytes, each of which it stores into the next eight bits. Write
+        // exactly that, whatever the width of the storage element is (the
+        // storage elements themselves are not self-delimiting bytes).
         encoder.emit_usize(self.len())?;
-        let underlying = self.as_raw_slice();
-        for item in underlying {
-            item.encode(encoder, plugin, session)?;
+
+        for chunk in self.chunks(8) {
+            let byte = if chunk.len() == 8 {
+                chunk.load_be::<u8>()
+            } else {
+                let mut padded = Self::from_bitslice(chunk);
+                padded.resize(8, false);
+                padded.load_be::<u8>()
+            };
+
+            encoder.emit_u8(byte)?;
         }
+
         Ok(())
     }
 }
